@@ -18,7 +18,9 @@
      C10|vf|set|pk|msg|ctx|sig|tag       -> ok | rej
      C10|ts|set|variant|id|seed|msg|rnd|tag   Tink signer  -> prefix‖sig | err
      C10|tv|set|variant|id|pk|msg|sig|tag     Tink verifier -> ok | rej
-     C10|ph|set|id|seed|msg|rnd|tag      prehash (external mu): prehash,sig *)
+     C10|ph|set|id|seed|msg|rnd|tag      prehash (external mu): prehash,sig
+     C10|cs|set|alg|variant|id|seed|clseed|msg|rnd|tag   composite signer: the ML-DSA component
+     C10|cv|set|alg|variant|id|pk|clpk|msg|sig|tag       composite verifier -> ok | rej *)
 let rec zpos_of_int i = if i = 1 then XH else if i land 1 = 0 then XO (zpos_of_int (i lsr 1)) else XI (zpos_of_int (i lsr 1))
 let z_of_int i = if i = 0 then Z0 else if i > 0 then Zpos (zpos_of_int i) else Zneg (zpos_of_int (- i))
 let int_of_z = function Z0 -> 0 | Zpos p -> int_of_pos p | Zneg p -> - (int_of_pos p)
@@ -28,6 +30,14 @@ let shake128 m len =
 let shake256 m len =
   let r = oracle ("shake256 " ^ hexs m ^ " " ^ string_of_int (int_of_nat len)) in
   if r = "ERR" then failwith "oracle error on shake256" else unhex r
+let sha512 m = ocall "hash" ["sha512"] [m]
+let ed_verify pub msg sg = oracle (String.concat " " ["ed25519_verify"; hexs pub; hexs msg; hexs sg]) = "01"
+let bytes_of_string s = List.init (String.length s) (fun i -> byte_tab.(Char.code s.[i]))
+(* labels of draft-ietf-lamps-pq-composite-sigs, written here independently of the Go table *)
+let label_of set alg = bytes_of_string (match set, alg with
+  | "65", "ed25519" -> "COMPSIG-MLDSA65-Ed25519-SHA512"
+  | _ -> failwith "composite algorithm")
+let classical_of = function "ed25519" -> ed_verify | _ -> failwith "classical algorithm"
 let set_of = function "44" -> mLDSA44 | "65" -> mLDSA65 | "87" -> mLDSA87 | _ -> failwith "set"
 let poly_of_hex (s : string) : z list =
   if s = "-" then [] else
@@ -140,4 +150,13 @@ let handle line =
     let pre = computePrehash shake256 pk.pk_tr id (unhex msg) in
     (match signPrehash shake128 shake256 p fuel sk id pre (unhex rnd) with
      | None -> hexs pre ^ ",err" | Some r -> hexs pre ^ "," ^ sigout r)
+  | [_; "cs"; set; alg; v; id; seed; _; msg; rnd; _] ->
+    let p = set_of set in
+    let (_, sk) = keys p seed in
+    (match compositeSignMldsaPart shake128 shake256 p sha512 fuel sk (label_of set alg) (unhex msg) (unhex rnd) with
+     | None -> "err" | Some r -> sigout r)
+  | [_; "cv"; set; alg; v; id; pk; clpk; msg; sg; _] ->
+    let p = set_of set in
+    verout (compositeVerify shake128 shake256 p sha512 (classical_of alg) (prefix_of v (int_of_string id))
+              (unhex pk) (unhex clpk) (label_of set alg) (unhex sg) (unhex msg))
   | _ -> failwith "case"
